@@ -9,9 +9,11 @@ use simple_sds::raw_vector::AccessRaw;
 use simple_sds::rl_vector::RLVector;
 use simple_sds::sparse_vector::SparseVector;
 
-pub fn pair_call<I: Iterator<Item = (usize, usize)>>(it: &mut I, c: &str, len: Option<usize>) -> String {
+pub fn pair_call<I: Iterator<Item = (usize, usize)> + Clone>(it: &mut I, c: &str, len: Option<usize>) -> String {
     let f = |x: Option<(usize, usize)>| match x { Some((a, b)) => format!("s{},{}", a, b), None => "-".to_string() };
     match c.as_bytes()[0] {
+        b'c' => format!("c{}", it.clone().count()),
+        b'L' => format!("L{}", f(it.clone().last())),
         b'n' => f(it.next()),
         b'N' => f(it.nth(parse_usize(&c[1..]))),
         b'l' => match len { Some(l) => format!("l{}", l), None => "l?".to_string() },
@@ -19,9 +21,12 @@ pub fn pair_call<I: Iterator<Item = (usize, usize)>>(it: &mut I, c: &str, len: O
     }
 }
 
-pub fn pair_call_de<I: Iterator<Item = (usize, usize)> + DoubleEndedIterator + ExactSizeIterator>(it: &mut I, c: &str) -> String {
+pub fn pair_call_de<I: Iterator<Item = (usize, usize)> + DoubleEndedIterator + ExactSizeIterator + Clone>(it: &mut I, c: &str) -> String {
     let f = |x: Option<(usize, usize)>| match x { Some((a, b)) => format!("s{},{}", a, b), None => "-".to_string() };
     match c.as_bytes()[0] {
+        b'c' => format!("c{}", it.clone().count()),
+        b'L' => format!("L{}", f(it.clone().last())),
+        b'h' => { let (lo, hi) = it.size_hint(); format!("h{},{}", lo, hi.map(|x| x.to_string()).unwrap_or("?".to_string())) },
         b'n' => f(it.next()),
         b'b' => f(it.next_back()),
         b'N' => f(it.nth(parse_usize(&c[1..]))),
@@ -31,9 +36,12 @@ pub fn pair_call_de<I: Iterator<Item = (usize, usize)> + DoubleEndedIterator + E
     }
 }
 
-pub fn pair_call_fwd<I: Iterator<Item = (usize, usize)> + ExactSizeIterator>(it: &mut I, c: &str) -> String {
+pub fn pair_call_fwd<I: Iterator<Item = (usize, usize)> + ExactSizeIterator + Clone>(it: &mut I, c: &str) -> String {
     let f = |x: Option<(usize, usize)>| match x { Some((a, b)) => format!("s{},{}", a, b), None => "-".to_string() };
     match c.as_bytes()[0] {
+        b'c' => format!("c{}", it.clone().count()),
+        b'L' => format!("L{}", f(it.clone().last())),
+        b'h' => { let (lo, hi) = it.size_hint(); format!("h{},{}", lo, hi.map(|x| x.to_string()).unwrap_or("?".to_string())) },
         b'n' => f(it.next()),
         b'N' => f(it.nth(parse_usize(&c[1..]))),
         b'l' => format!("l{}", it.len()),
@@ -41,9 +49,12 @@ pub fn pair_call_fwd<I: Iterator<Item = (usize, usize)> + ExactSizeIterator>(it:
     }
 }
 
-pub fn bool_call_de<I: Iterator<Item = bool> + DoubleEndedIterator + ExactSizeIterator>(it: &mut I, c: &str) -> String {
+pub fn bool_call_de<I: Iterator<Item = bool> + DoubleEndedIterator + ExactSizeIterator + Clone>(it: &mut I, c: &str) -> String {
     let f = |x: Option<bool>| match x { Some(v) => format!("s{}", v as u8), None => "-".to_string() };
     match c.as_bytes()[0] {
+        b'c' => format!("c{}", it.clone().count()),
+        b'L' => format!("L{}", f(it.clone().last())),
+        b'h' => { let (lo, hi) = it.size_hint(); format!("h{},{}", lo, hi.map(|x| x.to_string()).unwrap_or("?".to_string())) },
         b'n' => f(it.next()),
         b'b' => f(it.next_back()),
         b'N' => f(it.nth(parse_usize(&c[1..]))),
@@ -53,9 +64,12 @@ pub fn bool_call_de<I: Iterator<Item = bool> + DoubleEndedIterator + ExactSizeIt
     }
 }
 
-pub fn bool_call_fwd<I: Iterator<Item = bool> + ExactSizeIterator>(it: &mut I, c: &str) -> String {
+pub fn bool_call_fwd<I: Iterator<Item = bool> + ExactSizeIterator + Clone>(it: &mut I, c: &str) -> String {
     let f = |x: Option<bool>| match x { Some(v) => format!("s{}", v as u8), None => "-".to_string() };
     match c.as_bytes()[0] {
+        b'c' => format!("c{}", it.clone().count()),
+        b'L' => format!("L{}", f(it.clone().last())),
+        b'h' => { let (lo, hi) = it.size_hint(); format!("h{},{}", lo, hi.map(|x| x.to_string()).unwrap_or("?".to_string())) },
         b'n' => f(it.next()),
         b'N' => f(it.nth(parse_usize(&c[1..]))),
         b'l' => format!("l{}", it.len()),
